@@ -8,6 +8,7 @@ import (
 	"os"
 	"time"
 
+	"otterverif/internal/conc"
 	"otterverif/internal/core"
 	"otterverif/internal/seq"
 )
@@ -35,7 +36,7 @@ func main() {
 			os.Exit(3)
 		}
 	} else {
-		run(col, *prop, *tier, *variant, *seed, *shard, *nshards, *replayDir)
+		run(col, *prop, *tier, *variant, *seed, *shard, *nshards, *replayDir, *out)
 	}
 	col.R.WallS = time.Since(start).Seconds()
 	if *out != "" {
@@ -49,10 +50,17 @@ func main() {
 	}
 }
 
-func run(col *core.Collector, prop, tier, variant string, seed uint64, shard, nshards int, replayDir string) {
+func run(col *core.Collector, prop, tier, variant string, seed uint64, shard, nshards int, replayDir, out string) {
 	switch prop {
-	case "C01", "C03", "C07", "C10", "C11", "C12", "C13", "C20":
+	case "C01", "C03", "C07", "C10", "C11", "C12", "C13":
 		seq.RunProperty(col, prop, tier, seed, shard, nshards, replayDir)
+	case "C20":
+		if variant == "plain" {
+			seq.RunProperty(col, prop, tier, seed, shard, nshards, replayDir)
+		}
+		conc.Run(col, prop, tier, variant, seed, shard, nshards, replayDir, out)
+	case "C02", "C04", "C05", "C06", "C14":
+		conc.Run(col, prop, tier, variant, seed, shard, nshards, replayDir, out)
 	case "C19":
 		seq.RunPersist(col, tier, seed, shard, nshards, replayDir)
 	default:
